@@ -764,6 +764,8 @@ func (s *Store[H]) deinit() {
 	s.contiguousHead.Store(nil)
 	s.tailHeader.Store(nil)
 	s.heightSub.SetHeight(0)
+	// SetHeight only moves the height up, so reset it explicitly
+	s.heightSub.Init(0)
 }
 
 // withWriteBatch attaches a new batch to the given context and returns cleanup func.
